@@ -75,7 +75,8 @@ def check_case(case, wf):
         bad.append(('C12:time-axis', 'reported time stamps differ from the requested grid'))
         return bad, m
     sv = max([np.max(np.abs(v)) for v in V.values()] + [1e-12])
-    si = max([np.max(np.abs(v)) for v in I.values()] + [1e-12])
+    rmin = min([c['params']['R'] for c in case['components'] if c['kind'] == 'resistor'] + [1.0])
+    si = max([np.max(np.abs(v)) for v in I.values()] + [1e-12, sv / max(rmin, 1e-12) * 1e-3])     # a current scale even when nothing flows
     comps = {c['id']: c for c in case['components']}
     # rest
     for i in m['c_ids']:
@@ -140,8 +141,10 @@ def check_case(case, wf):
         def u(tt):
             return np.array([float(inputs[s](np.array([tt]))[0]) for s in m['sources']])
         bps = sorted({t[min(wf[s][1], N // 6)] for s in m['sources']} | {t[min(max(wf[s][2], min(wf[s][1], N // 6) + 1), N // 4)] for s in m['sources']})
+        # the integrator must not step over a short pulse: bound the step by the shortest waveform feature
+        feat = min([(t[-1] - t[0]) / 50] + [(bps[k + 1] - bps[k]) / 3 for k in range(len(bps) - 1) if bps[k + 1] > bps[k]])
         r = solve_ivp(lambda tt, x: A @ x + B @ u(tt), (t[0], t[-1]), np.zeros(n), t_eval=t, method='Radau', rtol=1e-9, atol=1e-12,
-                      jac=lambda tt, x: A, max_step=(t[-1] - t[0]) / 50, first_step=h / 10)
+                      jac=lambda tt, x: A, max_step=feat, first_step=h / 10)
         if r.success:
             X = r.y
             for k, i in enumerate(m['c_ids']):
